@@ -325,6 +325,15 @@ func (e *Enc) applyCall(name, kind string, fn *ssa.Function, fc *FuncContract, c
 	for _, r := range results {
 		e.assumeResultInv(r.T, r.Typ, nowAtCall)
 	}
+	// a callee flagged returns-fresh hands back a new object: until it escapes it behaves like a local allocation
+	if fc != nil && fc.Flags["returns-fresh"] && len(results) > 0 {
+		if cv, ok := instrOf(c, e.curBlock).(ssa.Value); ok && cv != nil {
+			if pt, ok := results[0].Typ.Underlying().(*types.Pointer); ok {
+				e.assume(And(Ne(results[0].T, IntLit(0)), Ge(Birth(results[0].T), nowAtCall)))
+				e.allocs = append(e.allocs, allocRec{val: cv, ref: results[0].T, typ: pt.Elem(), block: e.curBlock, complete: true})
+			}
+		}
+	}
 	return results
 }
 
@@ -374,7 +383,7 @@ func (e *Enc) havocForCall(mod KeySet, at ssa.Instruction, args []Val) {
 					e.assert(Eq(Select(nw, a.ref), Select(old, a.ref)))
 				}
 			case "CV":
-				if e.p.cvKeyMaybe(a.instr) == k {
+				if a.instr != nil && e.p.cvKeyMaybe(a.instr) == k {
 					e.assert(Eq(Select(nw, a.ref), Select(old, a.ref)))
 				}
 			case "E":
@@ -477,7 +486,7 @@ func (e *Enc) unescapedAllocs(at ssa.Instruction) []allocRec {
 				}
 			}
 		}
-		visit(a.instr, 0)
+		visit(a.val, 0)
 		if !escaped {
 			out = append(out, a)
 		}
@@ -715,7 +724,7 @@ func (e *Enc) fnEnv(st *State) *Env {
 		}
 	}
 	for _, ar := range e.allocs {
-		if ar.instr.Comment == "" {
+		if ar.instr == nil || ar.instr.Comment == "" {
 			continue
 		}
 		if k := e.p.cvKeyMaybe(ar.instr); k != "" {
@@ -724,8 +733,12 @@ func (e *Enc) fnEnv(st *State) *Env {
 	}
 	for _, fv := range e.fn.FreeVars {
 		v := e.vals[fv]
+		if v.Addr != nil && v.Addr.Kind == "cv" {
+			// a captured variable: the name denotes its current content
+			env.vars[fv.Name()] = TV{T: Select(e.heapGet(st, v.Addr.Key), v.Addr.Base), Typ: v.Addr.Elem}
+			continue
+		}
 		env.vars[fv.Name()] = TV{T: v.T, Typ: fv.Type()}
-		// captured variable's current content as *name? use deref(name)
 	}
 	for _, p := range e.fn.Params {
 		env.vars[p.Name()] = TV{T: e.vals[p].T, Typ: p.Type()}
@@ -793,10 +806,20 @@ func (e *Enc) loopHeader(b *ssa.BasicBlock, li *loopInfo, preds []*ssa.BasicBloc
 	// constructor-only fields: the loop body (this very function) may write the objects it allocated itself,
 	// so only objects older than this activation are known to be unchanged
 	nowBeforeLoop := e.now0
+	private := e.loopPrivateAllocs(li)
 	for _, k := range e.expandKeys(li.mod) {
 		old, nw := e.havocKey(e.cur, k)
 		e.monotoneAssume(k, old, nw)
 		e.initOnlyAssume(k, old, nw, nowBeforeLoop)
+		// objects of this function that stay private throughout the loop and are not written by it keep their fields
+		parts := strings.Split(k, "|")
+		if parts[0] == "F" {
+			for _, a := range private {
+				if _, isStruct := a.typ.Underlying().(*types.Struct); isStruct && e.p.structKeyName(a.typ) == parts[1] && !e.loopStoresField(li, a.val, parts[2]) {
+					e.assert(Eq(Select(nw, a.ref), Select(old, a.ref)))
+				}
+			}
+		}
 	}
 	var mls []*ssa.Alloc
 	for a := range li.modLocals {
@@ -1123,7 +1146,7 @@ func (e *Enc) assumeInvOf(v Term, st types.Type, ti *TypeInv) {
 func (e *Enc) notMine(v Term, st types.Type) Term {
 	cs := []Term{Ne(v, IntLit(0))}
 	for _, a := range e.allocs {
-		if types.Identical(a.typ, st) {
+		if !a.complete && types.Identical(a.typ, st) {
 			cs = append(cs, Ne(v, a.ref))
 		}
 	}
@@ -1188,7 +1211,7 @@ func (e *Enc) typeInvAfterStore(a *Addr, pos token.Pos) {
 func (e *Enc) checkAllocInvariants(pos token.Pos) {
 	for _, a := range e.allocs {
 		ti := e.structInv(a.typ)
-		if ti == nil {
+		if ti == nil || a.complete {
 			continue
 		}
 		env := &Env{e: e, vars: map[string]TV{"self": {T: a.ref, Typ: types.NewPointer(a.typ)}}, state: e.cur, old: e.entry, now0: e.now0}
@@ -1260,7 +1283,11 @@ func (e *Enc) frameObligationGuarded(in ssa.Instruction, kind, key string, base 
 	default:
 		goal = False
 	}
-	e.oblige("frame", kind+"/"+key, pos, Implies(guard, goal), []string{"C04", "C05"}, "write must target memory that is fresh or per-execution: "+key)
+	props := []string{"C04", "C05"}
+	if parts[0] == "M" || parts[0] == "E" {
+		props = append(props, "C12") // the caller's context and data are never written
+	}
+	e.oblige("frame", kind+"/"+key, pos, Implies(guard, goal), props, "write must target memory that is fresh or per-execution: "+key)
 }
 
 // effectObligation (C11): calls that touch the file system are only allowed in loaders.
@@ -1377,4 +1404,86 @@ func (e *Enc) assignKeysTyped(fc *FuncContract, fn *ssa.Function, item string) [
 		}
 	}
 	return e.assignKeys(fc, item)
+}
+
+// loopPrivateAllocs: objects allocated before the loop that have not escaped at its head and do not escape inside it.
+func (e *Enc) loopPrivateAllocs(li *loopInfo) []allocRec {
+	first := li.header.Instrs[0]
+	var out []allocRec
+	for _, a := range e.unescapedAllocs(first) {
+		if li.blocks[a.block] {
+			continue
+		}
+		esc := false
+		var visit func(v ssa.Value, depth int)
+		seen := map[ssa.Value]bool{}
+		visit = func(v ssa.Value, depth int) {
+			if esc || seen[v] || depth > 6 {
+				return
+			}
+			seen[v] = true
+			refs := v.Referrers()
+			if refs == nil {
+				return
+			}
+			for _, r := range *refs {
+				switch x := r.(type) {
+				case *ssa.DebugRef, *ssa.UnOp:
+					continue
+				case *ssa.FieldAddr:
+					if x.X == v {
+						visit(x, depth+1)
+					}
+					continue
+				case *ssa.IndexAddr:
+					if x.X == v {
+						visit(x, depth+1)
+					}
+					continue
+				case *ssa.Store:
+					if x.Addr == v {
+						continue
+					}
+				}
+				if li.blocks[r.Block()] {
+					esc = true
+					return
+				}
+			}
+		}
+		visit(a.val, 0)
+		if !esc {
+			out = append(out, a)
+		}
+	}
+	return out
+}
+
+// loopStoresField: does the loop body store to field `name` through this very object?
+func (e *Enc) loopStoresField(li *loopInfo, obj ssa.Value, name string) bool {
+	for b := range li.blocks {
+		for _, in := range b.Instrs {
+			st, ok := in.(*ssa.Store)
+			if !ok {
+				continue
+			}
+			fa, ok := st.Addr.(*ssa.FieldAddr)
+			if !ok {
+				continue
+			}
+			stT := derefType(fa.X.Type())
+			sst, ok := stT.Underlying().(*types.Struct)
+			if !ok || sst.Field(fa.Field).Name() != name {
+				continue
+			}
+			if fa.X == obj {
+				return true
+			}
+			// a different SSA value of the same struct type might alias only if obj escaped (it has not), unless it is a phi of locals
+			if _, isPhi := fa.X.(*ssa.Phi); isPhi {
+				return true
+			}
+		}
+	}
+	return false
 }
